@@ -22,6 +22,12 @@ extracted Coq model (coq/model/Frozen.v):
           as dict key): they must never change; copy_pop(present / absent key) steps on
           ImmutableDict objects; the object is also built a second time from the very same
           argument objects and both must be equal.
+          Dict arguments are, about 4 times in 10, instances of a dict SUBCLASS
+          (collections.defaultdict(list), defaultdict(lambda: None), OrderedDict, a class with an
+          inserting __missing__); read-only probes (missing_key in m, m.get, m[missing] in a try,
+          list(m), len(m), dict(m.items()), to_dict, hash, ==, for Snapshot the git manifest with
+          aliases to missing branches) are followed by re-observation; the twin is built from equal
+          PLAIN dicts.
   twins   two objects from equal / permuted / differing arguments: ==, hashable,
           equal hashes, usable as dict key and set member.  The model says
           whether they are equal and whether their hash keys coincide.
@@ -49,6 +55,8 @@ THEOREMS = [
     "C11_no_alias_satisfiable", "C11_eq_hash_satisfiable",
     "C11_frozen_mapping_never_changes", "C11_frozen_cell_never_written", "C11_frozen_mapping_satisfiable",
     "C11_copy_pop_refuted_inplace",
+    "C11_reads_are_pure", "C11_reads_are_pure_from_dict", "C11_reads_are_pure_copy_pop", "C11_read_pure_step",
+    "C11_reads_are_pure_satisfiable", "C11_reads_pure_refuted_subclass_copy",
 ]
 RULE = ("for each attrs class of swh.model.model, each SWHID class and ImmutableDict: generated valid field values; "
         "every dict/list-typed argument is a fresh container kept by the harness; script = setattr+delattr on every "
@@ -111,9 +119,34 @@ def _enum(cls_name, name):
     raise KeyError(cls_name)
 
 
-def build(spec, kept, frozen=None):
+class MissingDict(dict):
+    """a small dict subclass whose __missing__ inserts"""
+    def __missing__(self, k):
+        self[k] = None
+        return None
+
+
+SUBCLASSES = ("defaultdict_list", "defaultdict_none", "ordered", "missing")
+FACTORY_SUBCLASSES = ("defaultdict_list", "defaultdict_none", "missing")     # a failed d[k] inserts k
+
+
+def new_dict(sub):
+    import collections
+    if sub == "defaultdict_list":
+        return collections.defaultdict(list)
+    if sub == "defaultdict_none":
+        return collections.defaultdict(lambda: None)
+    if sub == "ordered":
+        return collections.OrderedDict()
+    if sub == "missing":
+        return MissingDict()
+    return {}
+
+
+def build(spec, kept, frozen=None, plain=False):
     """spec -> Python value; every dict/list created is appended to kept (creation order, pre-order);
-    every ImmutableDict created for an ["I", ...] node is appended to frozen (same order)"""
+    every ImmutableDict created for an ["I", ...] node is appended to frozen (same order).
+    ["d", items, sub] is an instance of the dict subclass `sub` (a plain dict when plain=True)"""
     if spec is None:
         return None
     t = spec[0]
@@ -130,18 +163,18 @@ def build(spec, kept, frozen=None):
     if t == "dt":
         return datetime.datetime.fromisoformat(spec[1])
     if t == "t":
-        return tuple(build(x, kept, frozen) for x in spec[1])
+        return tuple(build(x, kept, frozen, plain) for x in spec[1])
     if t == "l":
         lst = []
         kept.append(lst)
         for x in spec[1]:
-            lst.append(build(x, kept, frozen))
+            lst.append(build(x, kept, frozen, plain))
         return lst
     if t == "d":
-        d = {}
+        d = new_dict(spec[2] if len(spec) > 2 and not plain else None)
         kept.append(d)
         for k, v in spec[1]:
-            d[build(k, kept, frozen)] = build(v, kept, frozen)
+            d[build(k, kept, frozen, plain)] = build(v, kept, frozen, plain)
         return d
     if t == "I":
         _, ImmutableDict = _classes()
@@ -149,13 +182,13 @@ def build(spec, kept, frozen=None):
         if frozen is not None:
             slot = len(frozen)
             frozen.append(None)
-        x = ImmutableDict([(build(k, kept, frozen), build(v, kept, frozen)) for k, v in spec[1]])
+        x = ImmutableDict([(build(k, kept, frozen, plain), build(v, kept, frozen, plain)) for k, v in spec[1]])
         if slot is not None:
             frozen[slot] = x
         return x
     if t == "o":
         classes, _ = _classes()
-        return classes[spec[1]](**{f: build(v, kept, frozen) for f, v in spec[2]})
+        return classes[spec[1]](**{f: build(v, kept, frozen, plain) for f, v in spec[2]})
     raise ValueError(spec)
 
 
@@ -212,7 +245,8 @@ class Enc:
             items = []
             for k, v in spec[1]:
                 items.append(spec_atom_hex(k) + "=" + self.val(v))
-            self.cells[h] = "D(" + ";".join(items) + ")"
+            fac = t == "d" and len(spec) > 2 and spec[2] in FACTORY_SUBCLASSES
+            self.cells[h] = ("F(" if fac else "D(") + ";".join(items) + ")"
             return ("R%d" if t == "d" else "I%d") % h
         if t == "o":
             import attr
@@ -322,13 +356,20 @@ def rmeta_items(rng, hashable=False):
     return items
 
 
+def subify(rng, dspec, p=0.45):
+    """a dict argument is, with probability p, an instance of a dict subclass"""
+    if rng.random() < p:
+        return [dspec[0], dspec[1], rng.choice(SUBCLASSES)]
+    return dspec
+
+
 def rmeta(rng, hashable=False):
     """an Optional[dict] metadata argument: None, a fresh dict, or an ImmutableDict"""
     r = rng.random()
     if r < 0.15:
         return None
     items = rmeta_items(rng, hashable)
-    return ["I", items] if r < 0.45 else ["d", items]      # ~1/3 already frozen
+    return ["I", items] if r < 0.45 else subify(rng, ["d", items])      # ~1/3 already frozen
 
 
 def g_person(rng):
@@ -377,7 +418,8 @@ def g_snapshot(rng, hashable=False):
     names = rng.sample([b"HEAD", b"refs/heads/main", b"refs/tags/v1", b"a", b"b", b"\xff", b"", b"zz"], n)
     items = [[["b", k.hex()], (None if rng.random() < 0.2 else g_branch(rng))] for k in names]
     kind = "I" if rng.random() < 0.35 else "d"
-    return ["o", "Snapshot", [["branches", [kind, items]], ["id", rid(rng)]]]
+    br = [kind, items] if kind == "I" else subify(rng, [kind, items])
+    return ["o", "Snapshot", [["branches", br], ["id", rid(rng)]]]
 
 
 def g_release(rng, hashable=False):
@@ -545,6 +587,31 @@ def kept_specs(spec, out, top=True, path=()):
             kept_specs(v, out, False, path + ("o",))
 
 
+MAPPING_FIELDS = ("metadata", "branches")
+
+
+def read_steps(fld, items, cname, k0=0):
+    """read-only probes of a frozen mapping (the object itself when fld is None, else its field fld)"""
+    keys = [k for k, _ in items]
+    as_bytes = fld == "branches" or (keys and keys[0][0] == "b")
+
+    def miss(i):
+        return ["b", ("missing-%d" % (k0 + i)).encode().hex()] if as_bytes else ["s", "missing-%d" % (k0 + i)]
+    steps = [["read", fld, "contains", miss(0)], ["read", fld, "get", miss(1)], ["read", fld, "getitem", miss(2)],
+             ["read", fld, "iter", None], ["read", fld, "len", None], ["read", fld, "items", None]]
+    if keys:
+        steps += [["read", fld, "getitem", keys[0]], ["read", fld, "contains", keys[-1]], ["read", fld, "get", keys[0]]]
+    if cname == "Snapshot":
+        # what snapshot_git_object does for every alias: `target in snapshot.branches` (often a missing branch)
+        for _, v in items:
+            if v is not None and v[0] == "o" and v[2][1][1][2] == "ALIAS":
+                steps.append(["read", fld, "contains", v[2][0][1]])
+        steps.append(["read", None, "manifest", None])
+    steps += [["read", None, "todict", None], ["read", None, "hash", None], ["read", None, "eq", None],
+              ["read", fld, "contains", miss(0)]]
+    return steps
+
+
 def script_case(rng, cname, objspec, route):
     """script over the top-level arguments of objspec = ["o", cname, fields]"""
     fields = objspec[2]
@@ -555,6 +622,11 @@ def script_case(rng, cname, objspec, route):
     steps.append(["setattr", "no_such_attribute"])
     steps.append(["setitem", ["s", "a"]])
     steps.append(["delitem", ["s", "a"]])
+    reads = []
+    for f, v in fields:
+        if f in MAPPING_FIELDS and v is not None and v[0] in ("d", "I"):
+            reads += read_steps(f, v[1], cname)
+    steps += reads
     # kept containers, numbered as build() creates them over the argument list
     kept = []
     for f, v in fields:
@@ -566,6 +638,7 @@ def script_case(rng, cname, objspec, route):
         if path == ():
             steps += container_steps(rng, sp, i, k)
             k += 7
+    steps += reads[:3]
     return {"kind": "script", "cls": cname, "route": route, "args": fields, "steps": steps}
 
 
@@ -605,13 +678,23 @@ def fromdict_case(rng, cname, objspec):
     dspec = to_spec(obj.to_dict())
     if rng.random() < 0.5:
         dspec[1].reverse()
+    dspec = subify(rng, dspec, 0.3)
+    dspec[1][:] = [[k, (subify(rng, v, 0.4) if v is not None and v[0] == "d" else v)] for k, v in dspec[1]]
     kept = []
     kept_specs(dspec, kept)
     steps, k = [], 0
+    reads = []
+    for key, v in dspec[1]:
+        if key[1] in MAPPING_FIELDS and v is not None and v[0] == "d":
+            reads += read_steps(key[1], [], None)
+            if cname == "Snapshot":
+                reads.append(["read", None, "manifest", None])
+    steps += reads
     for i, (sp, path) in enumerate(kept):
         if len(path) <= 1 and path in ((), ("d",)):
             steps += container_steps(rng, sp, i, k)
             k += 7
+    steps += reads[:3]
     return {"kind": "script", "cls": cname, "route": "fromdict", "args": [dspec], "steps": steps}
 
 
@@ -619,7 +702,7 @@ def idict_case(rng):
     items = rmeta_items(rng, hashable=rng.random() < 0.7)
     r = rng.random()
     if r < 0.5:
-        arg = ["d", items]
+        arg = subify(rng, ["d", items], 0.6)
     elif r < 0.65:
         arg = ["l", [["t", [k, v]] for k, v in items]]
     elif r < 0.9:
@@ -629,6 +712,7 @@ def idict_case(rng):
     steps = [["setitem", ["s", "a"]], ["delitem", ["s", "a"]], ["setattr", "data"], ["delattr", "data"]]
     for k, _ in items[:2]:
         steps += [["setitem", k], ["delitem", k]]
+    steps += read_steps(None, items, "ImmutableDict")
     # copy_pop with present and absent keys; the receiver (and the mapping it was built from) is observed again
     for k, _ in items[:3]:
         steps.append(["copy_pop", k])
@@ -753,7 +837,7 @@ def gen(rng, tier):
 
 # ------------------------------------------------------------------ classification
 def _mutated_containers(c):
-    return sum(1 for s in c.get("steps", []) if s[0] in ("set", "del", "clear", "app", "idx", "pop", "copy_pop"))
+    return sum(1 for s in c.get("steps", []) if s[0] in ("set", "del", "clear", "app", "idx", "pop", "copy_pop", "read"))
 
 
 def nontrivial(c):
@@ -767,12 +851,25 @@ def nontrivial(c):
     return False
 
 
+def _subclasses(x):
+    if isinstance(x, list):
+        if len(x) == 3 and x[0] == "d" and isinstance(x[2], str) and x[2] in SUBCLASSES:
+            yield x[2]
+        for y in x:
+            yield from _subclasses(y)
+
+
 def classify(c):
     ks = ["kind=" + c["kind"]]
     if c["kind"] == "script":
         ks.append("class=" + c["cls"])
         ks.append("route=" + c["route"])
-        n = _mutated_containers(c)
+        n = sum(1 for st in c["steps"] if st[0] in CALLER_OPS)
+        ks.append("read-probes=%s" % ("0" if not any(st[0] == "read" for st in c["steps"]) else ">0"))
+        ks.append("copy_pop-steps=%s" % ("0" if not any(st[0] == "copy_pop" for st in c["steps"]) else ">0"))
+        subs = sorted(set(_subclasses(c["args"])))
+        for sub in subs:
+            ks.append("dict-subclass-arg=" + sub)
         ks.append("caller-mutations=" + ("0" if n == 0 else "1-3" if n <= 3 else ">3"))
         ks.append("attempts-on-object=%s" % ("0" if not any(s[0] in ("setattr", "delattr", "setitem", "delitem") for s in c["steps"]) else ">0"))
     elif c["kind"] == "twins":
@@ -790,12 +887,12 @@ def _raises(f):
     return None
 
 
-def _build_args(cname, route, fields, kept, frozen=None):
+def _build_args(cname, route, fields, kept, frozen=None, plain=False):
     if cname == "ImmutableDict":
-        return ("one", build(fields[0][1], kept, frozen))
+        return ("one", build(fields[0][1], kept, frozen, plain))
     if route == "fromdict":
-        return ("one", build(fields[0], kept, frozen))
-    return ("kw", {f: build(v, kept, frozen) for f, v in fields})
+        return ("one", build(fields[0], kept, frozen, plain))
+    return ("kw", {f: build(v, kept, frozen, plain) for f, v in fields})
 
 
 def _make(cname, route, built):
@@ -861,7 +958,7 @@ def impl_script(c):
     except Exception as e:
         return {"error": "raises", "exc": core.exc_class(e)}
     same = _make(c["cls"], c["route"], built)        # the SAME argument objects, a second time
-    twin = _construct(c["cls"], c["route"], c["args"], kept2)
+    twin = _make(c["cls"], c["route"], _build_args(c["cls"], c["route"], c["args"], kept2, None, True))   # from equal PLAIN dicts
     snap0 = snapshot(obj, twin, same, frozen, copies)
     res = {"snap0": snap0, "steps": [],
            "frozen_changed_by_construction": [i for i, (a, b) in enumerate(zip(frozen_before, snap0["frozen_args"])) if a != b]}
@@ -880,6 +977,40 @@ def impl_script(c):
         elif op == "delitem":
             key = build(st[1], [])
             raised = _raises(lambda: _item_del(obj, key))
+        elif op == "read":
+            m = obj if st[1] is None else getattr(obj, st[1])
+            kind = st[2]
+            key = build(st[3], []) if st[3] is not None else None
+            try:
+                if kind == "contains":
+                    key in m
+                elif kind == "get":
+                    m.get(key)
+                elif kind == "getitem":
+                    try:
+                        m[key]
+                    except KeyError:
+                        raised = "KeyError"
+                elif kind == "iter":
+                    list(m)
+                elif kind == "len":
+                    len(m)
+                elif kind == "items":
+                    dict(m.items())
+                elif kind == "todict":
+                    obj.to_dict() if hasattr(obj, "to_dict") else dict(obj.items())
+                elif kind == "hash":
+                    try:
+                        hash(obj)
+                    except TypeError:
+                        pass
+                elif kind == "eq":
+                    obj == twin
+                elif kind == "manifest":
+                    from swh.model import git_objects
+                    git_objects.snapshot_git_object(obj, ignore_unresolved=True)
+            except Exception as e:
+                raised = "unexpected " + type(e).__name__
         elif op == "copy_pop":
             key = build(st[1], [])
             before = dict(obj.items())
@@ -989,6 +1120,10 @@ def enc_steps(c, enc):
             out.append("%s:%s" % (op, spec_atom_hex(st[1])))
         elif op == "copy_pop":
             out.append("copypop:%s" % spec_atom_hex(st[1]))
+        elif op == "read":
+            fld = "-" if st[1] is None else st[1].encode().hex()
+            kind = "todict" if st[2] == "manifest" else st[2]      # the manifest is a function of the content
+            out.append("read:%s:%s" % (fld, kind) + (":" + spec_atom_hex(st[3]) if st[3] is not None else ""))
         else:
             h = enc.kept_handles[st[1]]
             if op == "set":
@@ -1092,6 +1227,12 @@ def oracle(c, ires, mres):
                 if r["changed"]:
                     return ("mutating a container passed to %s (%s) after construction changed the object's %s (step %r)"
                             % (c["cls"], c["route"], ",".join(r["changed"]), st))
+            elif st[0] == "read":
+                if r["raised"] is not None and not (st[2] == "getitem" and r["raised"] == "KeyError"):
+                    return "read-only access %r raised %s" % (st[1:], r["raised"])
+                if r["changed"]:
+                    return ("a read-only access (%s %s on %s.%s) changed the object's %s"
+                            % (st[2], "" if st[3] is None else st[3], c["cls"], st[1] or "", ",".join(r["changed"])))
             elif st[0] == "copy_pop":
                 if r["raised"] is not None:
                     return "copy_pop(%r) raised %s" % (st[1], r["raised"])
